@@ -1760,6 +1760,12 @@ fn verify_nsec(
             || nsec_data.type_set().contains(RecordType::CNAME)
         {
             nsec1_yield(Proof::Bogus, "direct match, record type should be present")
+        } else if is_ancestor_delegation(nsec_data) && query.query_type != RecordType::DS {
+            // RFC 6840 section 4.1: the parent-side NSEC of a delegation only speaks about DS.
+            nsec1_yield(
+                Proof::Bogus,
+                "direct match on an ancestor delegation NSEC for a type other than DS",
+            )
         } else if response_code == ResponseCode::NoError && !have_answer {
             nsec1_yield(Proof::Secure, "direct match")
         } else {
@@ -1893,6 +1899,7 @@ fn verify_nsec(
             && response_code == ResponseCode::NoError
             && nsecs.iter().any(|(name, nsec_data)| {
                 name == &&wildcard_name
+                    && (!is_ancestor_delegation(nsec_data) || query.query_type == RecordType::DS)
                     && !nsec_data.type_set().contains(query.query_type)
                     && !nsec_data.type_set().contains(RecordType::CNAME)
                     && no_closer_matches(&query.name, soa_name, nsecs, wildcard_base_name.as_ref())
@@ -1976,7 +1983,17 @@ fn find_nsec_covering_record<'a>(
 
         test_name > nsec_name
             && (test_name < next_domain_name || Some(next_domain_name) == soa_name)
+            // RFC 6840 section 4.1: an ancestor delegation NSEC says nothing about the names
+            // below its owner, they belong to the child zone.
+            && !(is_ancestor_delegation(nsec_data) && nsec_name.zone_of(test_name))
     })
+}
+
+/// RFC 6840 section 4.1: an NSEC with the NS bit set and the SOA bit clear comes from the parent
+/// side of a zone cut. It MUST NOT be used to assume nonexistence of any RRs below that zone cut,
+/// which include all RRs at that owner name other than DS RRs, and all RRs below that owner name.
+fn is_ancestor_delegation(nsec: &NSEC) -> bool {
+    nsec.type_set().contains(RecordType::NS) && !nsec.type_set().contains(RecordType::SOA)
 }
 
 /// Logs a debug message and yields a Proof type for return
